@@ -67,11 +67,11 @@ type Case struct {
 	MaxSteps int      `json:"max_steps,omitempty"`
 	Note     string   `json:"note,omitempty"`
 	// C08: per subscriber 0 never stalled, 1 stalled until the last write is done, 2 stalled for ever
-	Stall     []int `json:"stall"`
+	Stall []int `json:"stall"`
 	// C08: the last subscriber starts when everything else is over (Stall 0)
-	Late bool `json:"late,omitempty"`
-	TimeoutMs int   `json:"timeout_ms"`
-	Obs       *Obs  `json:"obs,omitempty"`
+	Late      bool `json:"late,omitempty"`
+	TimeoutMs int  `json:"timeout_ms"`
+	Obs       *Obs `json:"obs,omitempty"`
 }
 
 // Obs is what one run showed.
@@ -83,12 +83,12 @@ type Obs struct {
 	Snaps   [][]string `json:"snaps,omitempty"`
 	Bad     string     `json:"bad,omitempty"`
 	// C08
-	Results    []string   `json:"results,omitempty"`     // result class of every phase-2 write
-	Deq        [][][2]int `json:"deq,omitempty"`         // per subscriber: (duplicates, queue length) at every dequeue
-	Coal       []int      `json:"coal,omitempty"`        // ClientStats.CoalesceCount at the end
-	Returned   bool       `json:"returned"`              // every write returned within 5 s
-	WhileBlock int        `json:"writes_while_blocked"`  // writes made while a Send was blocked
-	Stalled    []int      `json:"stalled,omitempty"`     // stall kind of the subscribers whose Send did block
+	Results    []string   `json:"results,omitempty"`    // result class of every phase-2 write
+	Deq        [][][2]int `json:"deq,omitempty"`        // per subscriber: (duplicates, queue length) at every dequeue
+	Coal       []int      `json:"coal,omitempty"`       // ClientStats.CoalesceCount at the end
+	Returned   bool       `json:"returned"`             // every write returned within 5 s
+	WhileBlock int        `json:"writes_while_blocked"` // writes made while a Send was blocked
+	Stalled    []int      `json:"stalled,omitempty"`    // stall kind of the subscribers whose Send did block
 }
 
 var targets = []string{"t1", "t2"}
@@ -334,7 +334,6 @@ func (s *memStream) snapshot() []Resp {
 	defer s.mu.Unlock()
 	return append([]Resp(nil), s.sent...)
 }
-
 
 // ---------------------------------------------------------------------------
 // input-side relations (generator and labels only; the judgement is Coq's)
